@@ -47,7 +47,12 @@ def cases_for(pid):
         for label in sorted(os.listdir(rd)):
             pp = os.path.join(rd, label, "patch.diff")
             if os.path.exists(pp):
-                out.append({"name": "refactoring " + label, "kind": "patch", "spec": pp, "expect": "holds", "rules": []})
+                mp = os.path.join(rd, label, "meta.json")
+                und = (json.load(open(mp)).get("undecided_ok") or {}) if os.path.exists(mp) else {}
+                if pid in und:
+                    out.append({"name": "refactoring " + label, "kind": "patch", "spec": pp, "expect": "not-violation", "rules": [], "why": und[pid]})
+                else:
+                    out.append({"name": "refactoring " + label, "kind": "patch", "spec": pp, "expect": "holds", "rules": []})
     return out
 
 
